@@ -86,7 +86,10 @@ ConnectForms == {"plain", "ka0", "nouser", "emptyuser", "emptypass", "userpass",
                  "cut1", "cut3", "cut9", "cut13", "cut-1", "userpass-cut-3",
                  \* "rlN": with a password that makes the remaining length exactly N (length field bytes 0x7f / 0x80 0x01 / ...)
                  "rl127", "rl128", "rl129", "rl256", "rl384", "rl16383", "rl16384"}
-AnonForms == {"anon", "anon-nouser", "anon-emptyuser", "anon-ka0-emptyuser"}
+AnonForms == {"anon", "anon-nouser", "anon-emptyuser", "anon-ka0-emptyuser",
+              \* the identifier the broker assigns makes the stored CONNECT longer: remaining lengths just below the
+              \* values at which the length field grows by a byte
+              "anon-rl112", "anon-rl120", "anon-rl127", "anon-rl16370", "anon-rl16383"}
 ConnectF(c, k, clean, will, form) ==
   /\ form \in ConnectForms \cup AnonForms /\ (form \in AnonForms => clean)
   /\ c \in Conns /\ conn[c].st = "free"
@@ -277,6 +280,15 @@ SubAckOther(c, ty) ==
   /\ out' = O0
   /\ UNCHANGED <<conn, sess, subs, ret, closed>>
   /\ Log([a |-> "suback", c |-> c, ty |-> ty])
+(* Acknowledgement packets nobody asked for, sent by a client to which the broker has nothing outstanding ("arbitrary
+   other traffic", also carrying the identifier of one of the client's own open QoS 2 exchanges): a PUBREC is answered
+   with PUBREL (4.3.3: the receiver of a PUBREC MUST respond with a PUBREL carrying the same identifier), everything
+   else is consumed silently; nothing the broker holds changes                                                      *)
+Stray(c, ty, id) ==
+  /\ c \in Conns /\ Up(c) /\ d2[c] = 0 /\ (\A s \in subs : s.who # c)
+  /\ out' = IF ty = "PUBREC" THEN Grp(O0, c, {Ack("PUBREL", id)}) ELSE O0
+  /\ UNCHANGED <<conn, sess, subs, ret, closed>>
+  /\ Log([a |-> "stray", c |-> c, ty |-> ty, id |-> id])
 
 -----------------------------------------------------------------------------
 (* Design-level invariants (checked by TLC on every configuration)                      *)
